@@ -61,34 +61,34 @@ func IDs() []string {
 
 // Failure is one observed violation (or crash) of a property.
 type Failure struct {
-	Sig     string      `json:"sig"`  // signature: region+symptom, used to match known findings
-	Idx     int         `json:"idx"`  // case index
+	Sig     string      `json:"sig"` // signature: region+symptom, used to match known findings
+	Idx     int         `json:"idx"` // case index
 	Variant string      `json:"variant,omitempty"`
 	Detail  interface{} `json:"detail"`
 }
 
 // WorkerReport is what a worker process writes.
 type WorkerReport struct {
-	Next     int              `json:"next"` // next case index to run (all before it are complete)
-	Evals    int64            `json:"evals"`
-	Counters map[string]int64 `json:"counters"`
-	Distinct []uint64         `json:"distinct"`
-	Samples  []interface{}    `json:"samples"`
-	Failures []Failure        `json:"failures"`
+	Next     int                  `json:"next"` // next case index to run (all before it are complete)
+	Evals    int64                `json:"evals"`
+	Counters map[string]int64     `json:"counters"`
+	Distinct []uint64             `json:"distinct"`
+	Samples  []interface{}        `json:"samples"`
+	Failures []Failure            `json:"failures"`
 	Values   map[string][]float64 `json:"values,omitempty"` // named measurements (e.g. alloc per size)
 	distinct map[uint64]struct{}
 }
 
 // Ctx is handed to a check's Run for one case.
 type Ctx struct {
-	ID      string
-	Seed    int64
-	Tier    string
-	Idx     int
-	Variant string
-	Rng     *rand.Rand
-	rep     *WorkerReport
-	journal *os.File
+	ID         string
+	Seed       int64
+	Tier       string
+	Idx        int
+	Variant    string
+	Rng        *rand.Rand
+	rep        *WorkerReport
+	journal    *os.File
 	maxSamples int
 }
 
@@ -109,10 +109,10 @@ func (c *Ctx) Note(format string, args ...interface{}) {
 	}
 }
 
-func (c *Ctx) Eval()                      { c.rep.Evals++ }
-func (c *Ctx) Evals(n int64)              { c.rep.Evals += n }
-func (c *Ctx) Count(key string, n int64)  { c.rep.Counters[key] += n }
-func (c *Ctx) Inc(key string)             { c.rep.Counters[key]++ }
+func (c *Ctx) Eval()                     { c.rep.Evals++ }
+func (c *Ctx) Evals(n int64)             { c.rep.Evals += n }
+func (c *Ctx) Count(key string, n int64) { c.rep.Counters[key] += n }
+func (c *Ctx) Inc(key string)            { c.rep.Counters[key]++ }
 func (c *Ctx) Max(key string, v int64) {
 	if v > c.rep.Counters[key] {
 		c.rep.Counters[key] = v
@@ -154,13 +154,13 @@ func (c *Ctx) Fail(sig string, detail interface{}) {
 
 // Merged is the supervisor's merged view.
 type Merged struct {
-	Evals    int64
-	Counters map[string]int64
-	Distinct map[uint64]struct{}
-	Samples  []interface{}
-	Failures []Failure
-	Values   map[string][]float64
-	Crashes  int
+	Evals        int64
+	Counters     map[string]int64
+	Distinct     map[uint64]struct{}
+	Samples      []interface{}
+	Failures     []Failure
+	Values       map[string][]float64
+	Crashes      int
 	Inconclusive []string
 }
 
